@@ -195,8 +195,11 @@ class MonitoredList(MonitoredContainer, list):
         return list
 
     def extend(self, items):
-        # copy first: the items may be this list itself, or a one-shot iterator
-        for item in list(items):
+        # like list.extend: a list or tuple (maybe this list itself) is taken as it is now,
+        # any other iterable is consumed item by item (it may read what was added so far)
+        if isinstance(items, (list, tuple)):
+            items = list(items)
+        for item in items:
             self._add_item(item)
 
     def __iadd__(self, items):
